@@ -155,6 +155,9 @@ def step (g : Guard) (i : Input) (np : Nat) : Step :=
   -- `let part_count = 1 + *part_ids.par_iter().max().unwrap_or(&0);`
   | .partCountFromMax =>
     if usizeMax ≤ maxId i.parts then .stop ⟨.panic .addOverflow, .none⟩ else .next (1 + maxId i.parts)
+  -- `let part_count = part_ids.par_iter().max().map_or(1, |max_id| max_id.saturating_add(1));`
+  | .partCountFromMaxSat =>
+    .next (if usizeMax ≤ maxId i.parts then usizeMax else 1 + maxId i.parts)
   -- `let part_count = usize::max(2, part_count);`
   | .partCountAtLeast2 => .next (max 2 np)
   -- `if part_count < 2 { return Ok(0) }` (VnBest/VnFirst before 009dfeb/5ceee0a)
@@ -225,8 +228,11 @@ deriving Repr, DecidableEq
 
 /-- Guard order of the pinned upstream code at the seven call sites of defect
 D10 (what the translator extracts from commit `fa0ebd3`); the default is the
-order extracted from the current source. -/
+order extracted from the current source.  `uncheckedVnPartCount`: VnBest and
+VnFirst with the plain `1 + max` of the code before commit `b3a1ccd` in place
+of the saturating addition (the rest of the current list unchanged). -/
 structure Cfg where
+  uncheckedVnPartCount : Bool := false
   oldRib : Bool := false
   oldGreedy : Bool := false
   oldKk : Bool := false
@@ -234,6 +240,10 @@ structure Cfg where
   oldVnFirst : Bool := false
   oldFm : Bool := false
   oldArcSwap : Bool := false
+
+/-- The plain addition in place of the saturating one. -/
+def unsaturate (gs : List Guard) : List Guard :=
+  gs.map fun g => if g = .partCountFromMaxSat then .partCountFromMax else g
 
 def guards (cfg : Cfg) : Algo → List Guard
   | .rcb => rcbGuards
@@ -246,11 +256,13 @@ def guards (cfg : Cfg) : Algo → List Guard
   | .vnBest =>
     if cfg.oldVnBest then
       [.partCountFromMax, .singlePartOk, .lenWeights, .negativeValues, .vnBestTrivialOk, .partsLoad, .body]
+    else if cfg.uncheckedVnPartCount then unsaturate vnBestGuards
     else vnBestGuards
   | .vnFirst =>
     if cfg.oldVnFirst then
       [.partCountFromMax, .singlePartOk, .lenWeights, .assertPartCountNonZero, .vnFirstTrivialOk,
        .partsLoad, .vnFirstZeroTotalOk, .body]
+    else if cfg.uncheckedVnPartCount then unsaturate vnFirstGuards
     else vnFirstGuards
   | .fm =>
     if cfg.oldFm then
